@@ -16,6 +16,7 @@ import (
 	"os"
 	"path/filepath"
 	"strings"
+	"time"
 
 	old_faithful_grpc "github.com/rpcpool/yellowstone-faithful/old-faithful-proto/old-faithful-grpc"
 	"github.com/rpcpool/yellowstone-faithful/zzverif/ev"
@@ -152,6 +153,7 @@ func c13RpcTarget(f *c13Fixtures, e, companion *c13EpochFx, sp c13RpcSpec, twoEp
 	}
 	t.Cleanup = func() {
 		if comp != nil {
+			time.Sleep(5 * time.Millisecond)
 			comp.Close()
 		}
 		os.RemoveAll(work)
@@ -268,7 +270,12 @@ func c13RpcTarget(f *c13Fixtures, e, companion *c13EpochFx, sp c13RpcSpec, twoEp
 			}
 			_, resp := vfCall(h, bodies[k])
 			return c13RpcAns(resp)
-		}, func() { ep.Close() }}, nil
+		}, func() {
+			// the multi-epoch signature search leaves its slower jobs running after the first answer; give them
+			// a moment before the files are unmapped (closing under them is C09's close-under-query finding)
+			time.Sleep(5 * time.Millisecond)
+			ep.Close()
+		}}, nil
 	}
 	return t.limits(lim), nil
 }
